@@ -32,8 +32,10 @@ namespace Nstd.Rc
   Variants, Xml elements with children, executed with the destructor cascade `runC`) are covered by the `nested_*`
   theorems below.
 
-  Round 7: the constructors and accessors `sCap`, `sLitU`, `sConst`, `sEditTo`, `boxCtor` are `NOp` calls (all `nested_*` theorems and
-  `mt_calls_admitted` quantify over them); the bodies in which only the ORDER of acquire and release matters are no longer tied by a
+  Round 7: the constructors and guarded edits `gNew` (`String(usize capacity)`, attach to unterminated memory, the box constructors
+  `Variant(const T&)` / `Xml::Variant(const T&)`) and `gEdit` (`toUpperCase`, `operator const char*()`) are `ApiOp` calls with `flatOp = true`:
+  every theorem over `ApiOp` / `NOp` histories quantifies over them (totality, enabledness under interleaving, `no_use_after_drop`,
+  `nested_*`, `mt_calls_admitted`); the bodies in which only the ORDER of acquire and release matters are no longer tied by a
   hand translation alone: see PropsTie.lean (`tie_*`: interpretation of the bodies translated from the current headers = `pre`).
 
   OPEN (what is still not covered): in-place writes THROUGH an embedded handle (`v.toString().append` on a box whose
@@ -466,8 +468,7 @@ theorem mt_no_leak_quiescent {n : Nat} {S : Sys} (h : SReach n S) (hq : ∀ t, S
       intro hd
       exact no v ⟨by omega, hv, by rw [hsl]; rfl, hd⟩
 
-/-- every call of the model — all of Model.lean / Nested.lean including the round-7 constructors and accessors (`sCap`, `sLitU`,
-    `sConst`, `sEditTo`, `boxCtor`), except `d->next = s` — can be started by any thread of the interleaved system `SReach`
+/-- every call of the model — all of Model.lean / Nested.lean including the round-7 constructors and guarded edits (`gNew`, `gEdit`), except `d->next = s` — can be started by any thread of the interleaved system `SReach`
     (its `pre` and `post` lists receive handles only into top-level slots), so `mt_orphans_pending`, `mt_no_leak_quiescent`
     and, through `Reach`, `mt_safe` … quantify over programs made of these calls under every schedule -/
 theorem mt_calls_admitted (tid : Nat) (op : NOp) (ht : tid < nThreads) (hi : idxOkN op) :
@@ -478,13 +479,13 @@ set_option maxRecDepth 8000 in
     clones it into an owned block; a String of capacity 8 appended in place; a box built by `Variant(const List&)`, shared by a
     copy, and both released: every block released exactly once -/
 example : ∃ s, apiRunN (init nTotal) 0
-    [.sLitU 0 [97, 98], .sConst 0, .sCap 1 8, .flat (.sAppend 1 [99]), .sEditTo 1 [67], .boxCtor 4 tagVList [3],
-     .flat (.vCopy 5 4), .boxCtor 4 tagVStr [97], .flat (.vClear 5), .flat (.vClear 4), .flat (.sDel 0), .flat (.sDel 1)] = some s
+    [.flat (.gNew 0 tagStrU true [97, 98] 0), .flat (.gEdit 0 false [97, 98]), .flat (.gNew 1 tagStr false [] 8), .flat (.sAppend 1 [99]), .flat (.gEdit 1 false [67]), .flat (.gNew 4 tagVList false [3] 0),
+     .flat (.vCopy 5 4), .flat (.gNew 4 tagVStr false [97] 0), .flat (.vClear 5), .flat (.vClear 4), .flat (.sDel 0), .flat (.sDel 1)] = some s
     ∧ s.next = 4 ∧ s.freed 0 = 1 ∧ s.freed 1 = 1 ∧ s.freed 2 = 1 ∧ s.freed 3 = 1 ∧ s.viol = 0 := by
   refine ⟨_, rfl, ?_⟩
   decide
 
-example : ∃ s, apiRunN (init nTotal) 0 [.sLitU 0 [97, 98], .sConst 0, .sCap 1 8, .flat (.sAppend 1 [99]), .sEditTo 1 [67]] = some s
+example : ∃ s, apiRunN (init nTotal) 0 [.flat (.gNew 0 tagStrU true [97, 98] 0), .flat (.gEdit 0 false [97, 98]), .flat (.gNew 1 tagStr false [] 8), .flat (.sAppend 1 [99]), .flat (.gEdit 1 false [67])] = some s
     ∧ s.slots 0 = .blk 0 ∧ (s.heap 0).map (·.val) = some [97, 98] ∧ s.slots 1 = .blk 1
     ∧ (s.heap 1).map (fun b => (b.val, b.cap)) = some ([67], 8) ∧ s.next = 2 := by
   refine ⟨_, rfl, ?_⟩
@@ -690,6 +691,22 @@ example : ∃ s g, runTG (init nSlots) gh0 0 [.alloc 0 30 [1] 0, .inc 17 0, .dec
     g.misuse = 0 ∧ s.freed 0 = 0 := by
   refine ⟨_, _, rfl, ?_⟩
   decide
+
+/-- the round-7 calls are flat calls: histories containing them are never rejected and no step of them reads a dropped handle -/
+example : (∃ s, apiRun (init nSlots) 0 [.gNew 0 tagStrU true [97] 0, .gEdit 0 false [97], .gNew 1 tagStr false [] 8,
+      .gNew 4 tagVList false [3] 0, .vCopy 5 4, .gNew 4 tagVStr false [97] 0] = some s)
+    ∧ ∀ s g, apiRunG (init nSlots) gh0 0 [.gNew 0 tagStrU true [97] 0, .gEdit 0 false [97], .gNew 4 tagVList false [3] 0, .vCopy 5 4,
+      .gNew 4 tagVStr false [97] 0] = some (s, g) → g.misuse = 0 := by
+  constructor
+  · apply apiRun_total_partial _ (by decide)
+    intro op ho
+    simp only [List.mem_cons, List.not_mem_nil, or_false] at ho
+    rcases ho with rfl | rfl | rfl | rfl | rfl | rfl <;> exact ⟨rfl, by simp [idxOk, nVars]⟩
+  · intro s g h
+    refine no_use_after_drop ?_ h
+    intro op ho _
+    simp only [List.mem_cons, List.not_mem_nil, or_false] at ho
+    rcases ho with rfl | rfl | rfl | rfl | rfl <;> simp [idxOk, nVars]
 
 /-! ### non-vacuity: concrete histories / schedules that exercise sharing, cloning, release -/
 
